@@ -32,8 +32,8 @@ class Prop(SeqProp):
     pid = "C20"
     model = "tmppool"
     anchors = ["windpyutils/files.py"]
-    quick_cases = 800
-    thorough_cases = 2500
+    quick_cases = 1600
+    thorough_cases = 10000
     case_timeout = 120.0
     quick_mp = 24
     thorough_mp = 60
